@@ -399,6 +399,7 @@ func (se *SessionExecutor) handleSetVariable(reqCtx *util.RequestContext, sql st
 		if charset == mysql.KeywordDefault {
 			se.charset = se.GetNamespace().GetDefaultCharset()
 			se.collation = se.GetNamespace().GetDefaultCollationID()
+			se.clearCharsetVariables()
 			return nil
 		}
 
@@ -455,6 +456,9 @@ func (se *SessionExecutor) handleSetVariable(reqCtx *util.RequestContext, sql st
 
 		se.charset = charset
 		se.collation = collationID
+		// SET NAMES assigns character_set_client, character_set_connection and
+		// character_set_results: earlier individual assignments no longer apply
+		se.clearCharsetVariables()
 		return nil
 	case "sql_mode":
 		sqlMode := getSqlModeExprResult(v.Value)
@@ -542,6 +546,13 @@ func (se *SessionExecutor) handleSetVariable(reqCtx *util.RequestContext, sql st
 			SQLExecStatusIgnore, 0, se.namespace, se.user, se.clientAddr, "", se.db, se.session.c.GetConnectionID(), 0, reqCtx.IsPrepareSQL(), se.isInTransaction(), sql, fmt.Sprintf("variable(%s) not supported", name))
 		return nil
 	}
+}
+
+// clearCharsetVariables forgets individual character_set_xxx assignments of the session.
+func (se *SessionExecutor) clearCharsetVariables() {
+	se.sessionVariables.Delete(mysql.CharacterSetClient)
+	se.sessionVariables.Delete(mysql.CharacterSetConnection)
+	se.sessionVariables.Delete(mysql.CharacterSetResults)
 }
 
 func (se *SessionExecutor) handleSetAutoCommit(autocommit bool) (err error) {
